@@ -15,7 +15,7 @@ def engine_repo():
 from harness.engine import VERIF, coq_bad_cases, coq_list
 
 INFO = {
-    "extra_targets": ["Check/KernelCheck.vo"],
+    "extra_targets": ["Check/KernelCheck.vo", "Check/FloatKernelCheck.vo"],
     "level": "proof",
     "rule": "L2Cost / GaussianVarCost / GaussianCovCost x {optimal, fixed (scalar, per-column, length-1 array)} x p in 1..4 x n in 1..40 on dyadic "
             "data (multiples of 1/8, |x| <= 10, plus constant and duplicated-column matrices for the not-positive-definite branch) x random batches of "
@@ -222,3 +222,30 @@ def run(ctx):
                           f"rational twin of {m['kernel']} generated from the source, or that twin differs from the direct definition", m,
                           {"what": "twin", "kernel": m["kernel"]})
     sys.path.pop(0)
+    # ---- the OPERATION ORDER of the squared-error kernel on binary64, bit for bit (Check/FloatKernelCheck.v): this is the order the rounding-error
+    # ---- theorems C01_float_* (Proofs/FloatError.v) are stated for
+    from harness.floatstreams import fl, flist
+    from skchange.costs import L2Cost as _L2
+    fk_terms, fk_meta = [], []
+    rng_f = np.random.default_rng(ctx.seed + 101)
+    for it in range(ctx.n(60, 500)):
+        n = int(rng_f.integers(2, 60))
+        p = int(rng_f.integers(1, 4))
+        scale = float(rng_f.choice([1.0, 1e-3, 1e4, 123.456]))
+        Xf = rng_f.normal(size=(n, p)) * scale + float(rng_f.choice([0.0, 1e3, -7.25]))
+        mu = None if it % 3 else float(rng_f.choice([0.5, -2.0, 1e3, 0.1]))
+        sc = (_L2() if mu is None else _L2(mu)).fit(Xf)
+        s = int(rng_f.integers(0, n - 1))
+        e = int(rng_f.integers(s + 1, n + 1))
+        vals = sc.evaluate(np.asarray([[s, e]]))[0]
+        for j in range(p):
+            fk_terms.append("{| fk_xs := %s; fk_mu := %s; fk_s := %d%%nat; fk_e := %d%%nat; fk_val := %s |}"
+                            % (flist(Xf[:, j]), "None" if mu is None else f"(Some {fl(mu)})", s, e, fl(vals[j])))
+            fk_meta.append({"X_column": Xf[:, j].tolist(), "fixed_mean": mu, "cut": [s, e], "impl_value": float(vals[j]), "column": j})
+        ctx.case({"fk": it, "n": n, "p": p, "cut": [s, e], "x0": float(Xf[0, 0])}, nontrivial=True)
+        ctx.count("float_kernel", "fixed" if mu is not None else "optim")
+    fk_header = ("From Coq Require Import PrimFloat List Arith Bool.\nFrom SK Require Import Lib.Base Check.FloatKernelCheck.\nImport ListNotations.\nOpen Scope float_scope.")
+    for i in coq_bad_cases(ctx.cid, fk_header, "fk_case", "fk_ok", fk_terms, shard=120, tag="fk")[:20]:
+        m = fk_meta[i]
+        ctx.mismatch(f"L2Cost({'' if m['fixed_mean'] is None else m['fixed_mean']}).evaluate({m['cut']}) = {m['impl_value']!r} is not what the kernel's documented operation order "
+                     f"(sequential prefix sums of x and x*x, then S2 - S1*S1/n resp. S2 - 2 mu S1 + n mu*mu) gives on binary64", m, {"what": "float-operation-order", "kernel": "l2"})
